@@ -1,4 +1,5 @@
 (* C20 -- checker for the regenerated template skeletons, their expansions, and the output-site predicate.  No proofs. *)
+From Coq Require Import String.
 From Verif Require Export HtmlModel HtmlSkelBase Gen_HtmlSkel.
 Open Scope N_scope.
 
@@ -66,7 +67,26 @@ End Check.
    text position: constant, number, identifier, escaped as a whole, or markup filter; attribute / script / title position:
    not the markup filter either.  A template for which autoescape is selected escapes every site. *)
 Definition site_safe (s : site) : bool :=
-  autoescape_selected (st_template s)
+  (autoescape_selected (st_template s) && negb (st_safe_filter s))
   || (if st_ctx s =? 0 then st_cls s <=? 4 else st_cls s <=? 3).
 Definition all_dsdl_text_sinks_escaped : bool := forallb site_safe html_sites.
 Definition unsafe_sites : list site := filter (fun s => negb (site_safe s)) html_sites.
+
+(* The inlining structure the hand-mirrored emitter (HtmlModel.v) assumes: which macro calls / includes which, under which
+   loops (0) and conditions (1 if, 2 elif with the earlier conditions, 3 else with all conditions).  emit_ns inlines EVERY
+   nested namespace (unconditionally, in a loop) and every type whose short name is not `_`; emit_ty recurses into array
+   elements that are composites and into array-/composite-typed attributes.  The regenerated table must be exactly this:
+   a depth cut, an extra guard or a dropped recursion changes html_call_guards. *)
+Definition expected_call_guards : list (str * str * list (N * str)) := Eval vm_compute in [
+  (lit "DelimitedType.j2", lit "type_base.j2", []);
+  (lit "Namespace.j2", lit "sidebar.j2", []);
+  (lit "Namespace.j2", lit "namespace_info.j2:generate_namespace_info", []);
+  (lit "StructureType.j2", lit "type_base.j2", []);
+  (lit "UnionType.j2", lit "type_base.j2", []);
+  (lit "namespace_info.j2:generate_namespace_info", lit "type_info.j2:generate_type_info", [(0, lit "type, _ in t.get_nested_types() | natural_sort_type"); (1, lit "type.short_name != ""_""")]);
+  (lit "namespace_info.j2:generate_namespace_info", lit "namespace_info.j2:generate_namespace_info", [(0, lit "type in t.get_nested_namespaces() | natural_sort_namespace")]);
+  (lit "sidebar.j2:generate_sidebar_view", lit "sidebar.j2:generate_sidebar_view", [(0, lit "type in t.get_nested_namespaces() | natural_sort_namespace")]);
+  (lit "sidebar.j2", lit "sidebar.j2:generate_sidebar_view", []);
+  (lit "type_info.j2:generate_type_info", lit "type_info.j2:generate_type_info", [(1, lit "t is ArrayType"); (1, lit "t.element_type is CompositeType")]);
+  (lit "type_info.j2:generate_type_info", lit "type_info.j2:generate_type_info", [(3, lit "t is ArrayType / else"); (3, lit "t.attributes | length == 0 / else"); (0, lit "attr in t.attributes"); (1, lit "attr.data_type is ArrayType")]);
+  (lit "type_info.j2:generate_type_info", lit "type_info.j2:generate_type_info", [(3, lit "t is ArrayType / else"); (3, lit "t.attributes | length == 0 / else"); (0, lit "attr in t.attributes"); (2, lit "attr.data_type is ArrayType / attr.data_type is CompositeType")])]%string.
